@@ -143,6 +143,10 @@ fn run_case(report: &mut Report, c: &Case, verbose: bool) {
     // scales of the transformation in force after every draw (hook read-back; None for the flow presets)
     let mut scales: Vec<Option<crate::chains::Scales>> = vec![chain.scales()];
     let total = 55u64;
+    let mut failed_calls = 0u32;
+    // indices i such that a failed call lies between draw i - 1 and draw i of `outs` (the failed call may have changed
+    // the transformation without producing a draw that could carry the event)
+    let mut failure_after: std::collections::HashSet<usize> = std::collections::HashSet::new();
     // one history in four re-initialises the chain in the middle (a second set_position replaces the transformation
     // between two draws)
     let reinit_at: Option<u64> = if c.seed % 4 == 1 && !faulty && dim > 0 { Some(18 + (c.seed / 4) % 12) } else { None };
@@ -162,12 +166,18 @@ fn run_case(report: &mut Report, c: &Case, verbose: bool) {
             }
             Err(e) => {
                 if faulty {
-                    // an injected fault hit an evaluation the chain cannot retry (C05 / C13 territory)
-                    report.inconclusive("injected fault made a draw fail");
+                    // an injected fault hit an evaluation the chain cannot retry (C05 / C13 territory); the failed call
+                    // produced no draw: the history goes on with the next call (a few times)
+                    failed_calls += 1;
+                    failure_after.insert(outs.len());
                     if verbose {
                         eprintln!("draw {d}: {e}");
                     }
-                    break;
+                    if failed_calls > 3 {
+                        report.inconclusive("injected faults made several draws fail");
+                        break;
+                    }
+                    continue;
                 }
                 report.violation(format!("C16:{pname}:draw_error"), format!("draw {d}: {e}"), replay.clone());
                 return;
@@ -293,7 +303,7 @@ fn run_case(report: &mut Report, c: &Case, verbose: bool) {
             }
         }
         // transformation update events <=> the next trajectory runs with another transformation
-        if d >= 1 && d + 1 < outs.len() && types.contains_key("transformation_update_id") && reinit_at != Some(d as u64 + 1) && reinit_at != Some(d as u64) {
+        if d >= 1 && d + 1 < outs.len() && types.contains_key("transformation_update_id") && reinit_at != Some(d as u64 + 1) && reinit_at != Some(d as u64) && !failure_after.contains(&(d + 1)) && !failure_after.contains(&d) {
             let (a, b) = (o.i64("transformation_index"), outs[d + 1].i64("transformation_index"));
             let upd = o.i64("transformation_update_id");
             if upd.is_some() {
